@@ -16,6 +16,7 @@ fn main() {
     match ctx.mode.as_str() {
         "C13" => c13::run(&mut ctx),
         "C17" => c17::run(&mut ctx),
+        "C05" => c17::run_c05(&mut ctx),
         "C19" => c19::run(&mut ctx),
         m => {
             eprintln!("unknown mode {m}");
